@@ -375,46 +375,99 @@ theorem fit_rejects_short_series (V : Vals α) (R : Regressor α) (s : Strategy)
       bind, Except.bind]
   · simp [bind, Except.bind]
 
-/-- **After `update` (no refit) the window is taken from everything observed so far.**  A batch that
-continues the series moves the cutoff to its last label and leaves the fitted clones untouched, so the
-four prediction theorems apply verbatim to the extended series `y ++ yNew` (`X ++ XNew`): the regressors
-are fed the last `wl` *observed* values, not the last `wl` training values. -/
+/-- **After `update` (no refit) with a block that continues the series, the window is taken from
+everything observed so far.**  The cutoff moves to the block's last label and the fitted clones are
+untouched, so the four prediction theorems apply verbatim to the extended series `y ++ yNew`
+(`X ++ XNew`): the regressors are fed the last `wl` *observed* values, not the last `wl` training values. -/
 theorem update_extends_observed_series (V : Vals α) (R : Regressor α) (s : Strategy) (sci : Scitype) (wl : Nat)
     (t0 : Int) (y yNew : List α) (X XNew : Option (List (List α))) (stored : Option (List Int))
-    (ests : List (Nat × Est α)) (nfit : Nat) (hne : yNew ≠ []) :
-    update V R (fittedFc s sci wl t0 y X stored ests nfit) yNew XNew false =
+    (ests : List (Nat × Est α)) (nfit : Nat) (hne : yNew ≠ []) (hX : ∀ a, X = some a → a.length = y.length) :
+    update V R (fittedFc s sci wl t0 y X stored ests nfit) (t0 + y.length) yNew XNew false =
       .ok (fittedFc s sci wl t0 (y ++ yNew)
             (match X, XNew with
               | some a, some b => some (a ++ b)
               | a, _ => a) stored ests nfit, []) := by
   have h : yNew.isEmpty = false := by cases yNew <;> simp_all
-  unfold update fittedFc
-  simp only [h, Bool.false_and, Bool.false_eq_true, if_false]
-  have e : t0 + (y.length : Int) - 1 + (yNew.length : Int) = t0 + ((y ++ yNew).length : Int) - 1 := by
+  have hoff : (t0 + (y.length : Int) - t0).toNat = y.length := by omega
+  have e : t0 + (y.length : Int) + (yNew.length : Int) - 1 = t0 + ((y ++ yNew).length : Int) - 1 := by
     simp only [List.length_append]; omega
-  rw [e]
-  cases X <;> cases XNew <;> rfl
+  have hm : ∀ {β : Type} (pick : β → β → β) (a b : List β) (n : Nat), n = a.length →
+      mergeAt pick n a b = a ++ b := by
+    intro β pick a b n hn
+    subst hn
+    cases b <;> simp [mergeAt, mergeTail]
+  unfold update fittedFc
+  simp only [h, Bool.false_and, Bool.false_eq_true, if_false, hoff, e, hm _ y yNew y.length rfl]
+  cases X with
+  | none => cases XNew <;> rfl
+  | some a =>
+    cases XNew with
+    | none => rfl
+    | some b =>
+      have := hm (List.zipWith (pickNew V)) a b y.length (hX a rfl).symm
+      simp only [this]
 
 /-- **`update` with refit is `fit` on everything observed so far**: the refit hands the regressor the
-lagged windows of the extended series (the fit theorems then apply to `y ++ yNew`). -/
-theorem update_refit_eq_fit (V : Vals α) (R : Regressor α) (s : Strategy) (sci : Scitype) (wl : Nat)
-    (t0 : Int) (y yNew : List α) (X XNew : Option (List (List α))) (fh : List Int)
-    (ests : List (Nat × Est α)) (nfit : Nat) (hne : yNew ≠ []) :
-    update V R (fittedFc s sci wl t0 y X (some fh) ests nfit) yNew XNew true =
-      fit V R (fittedFc s sci wl t0 (y ++ yNew)
-            (match X, XNew with
-              | some a, some b => some (a ++ b)
-              | a, _ => a) (some fh) ests nfit) t0 (y ++ yNew)
-            (match X, XNew with
-              | some a, some b => some (a ++ b)
-              | a, _ => a) (some fh) := by
+lagged windows of the merged series (new values override re-stated ones), whatever block was passed. -/
+theorem update_refit_eq_fit (V : Vals α) (R : Regressor α) (fc : Fc α) (u0 : Int) (yNew : List α)
+    (XNew : Option (List (List α))) (fh : List Int) (hfh : fc.fh = some fh) (hne : yNew ≠ []) :
+    let off := (u0 - fc.t0).toNat
+    let y' := mergeAt (pickNew V) off fc.y yNew
+    let X' := match fc.X, XNew with
+      | some a, some b => some (mergeAt (List.zipWith (pickNew V)) off a b)
+      | a, _ => a
+    update V R fc u0 yNew XNew true =
+      fit V R { fc with y := y', X := X', cutoff := u0 + yNew.length - 1 } fc.t0 y' X' (some fh) := by
+  intro off y' X'
   have h : yNew.isEmpty = false := by cases yNew <;> simp_all
-  unfold update fittedFc
-  simp only [h, Bool.false_and, Bool.false_eq_true, if_false, if_true]
-  have e : t0 + (y.length : Int) - 1 + (yNew.length : Int) = t0 + ((y ++ yNew).length : Int) - 1 := by
-    simp only [List.length_append]; omega
-  rw [e]
-  cases X <;> cases XNew <;> rfl
+  unfold update
+  simp only [h, Bool.false_and, Bool.false_eq_true, if_false, if_true, hfh]
+  rfl
+
+/-- **The window ends at the cutoff, wherever the cutoff is.**  When the cutoff sits at the `m`-th stored
+label — the last one after `fit`/refit, an earlier one after `update` with a late, re-stated block or
+after `update_predict` (which restores the cutoff but keeps the data it was fed) — prediction behaves
+exactly as if only the first `m` observations were stored: nothing observed after the cutoff reaches a
+regressor.  (The four end-to-end prediction theorems then apply to `y.take m`.) -/
+theorem predict_ignores_data_after_cutoff (V : Vals α) (fc : Fc α) (fh : Option (List Int))
+    (Xp : Option (List (List α))) (m : Nat) (hm : fc.cutoff = fc.t0 + (m : Int) - 1) (h1 : 1 ≤ m) :
+    predict V fc fh Xp =
+      predict V { fc with y := fc.y.take m, X := fc.X.map fun rows => rows.take m } fh Xp := by
+  have hk : (fc.cutoff - fc.t0 + 1).toNat = m := by omega
+  have hls : ∀ {β : Type} (l : List β) (a : Int), locSlice fc.t0 (l.take m) a fc.cutoff = locSlice fc.t0 l a fc.cutoff := by
+    intro β l a
+    simp [locSlice, hk, List.take_take]
+  have hx : xCols (fc.X.map fun rows => rows.take m) = xCols fc.X := by
+    cases hX : fc.X with
+    | none => rfl
+    | some rows =>
+      cases rows with
+      | nil => simp [xCols, nCols]
+      | cons r rs =>
+        obtain ⟨k, rfl⟩ : ∃ k, m = k + 1 := ⟨m - 1, by omega⟩
+        simp [xCols, nCols]
+  unfold predict predictCore lastWindow
+  simp only [hls, hx, Option.isSome_map]
+  cases fc.X <;> simp [hls]
+
+/-- `update_predict` leaves the cutoff where it was (while the remembered series has grown), which is
+exactly the situation `predict_ignores_data_after_cutoff` covers. -/
+theorem update_predict_restores_cutoff (V : Vals α) (R : Regressor α) (fc fc' : Fc α) (u0 : Int) (yNew : List α)
+    (refit : Bool) (h : (updatePredict V R fc u0 yNew refit).2 = .ok fc') : fc'.cutoff = fc.cutoff := by
+  unfold updatePredict at h
+  cases hf : fc.fh with
+  | none => simp [hf] at h
+  | some fh =>
+    simp only [hf] at h
+    split at h
+    · simp at h
+    · split at h
+      · simp at h
+      · simp only [Except.map] at h
+        split at h
+        · simp at h
+        · injection h with h
+          rw [← h]
 
 /-- **The order in which the user lists the steps is irrelevant**: `check_fh` stores the horizon
 sorted, so every statement above (made for the stored, increasing order) covers any permutation. -/
@@ -438,7 +491,7 @@ example : ValidFit [10, 11, 12, 13, 14] (some [[100, 200], [101, 201], [102, 202
 example : FutureRect (some [[100], [101]]) (some [[7], [8], [9]]) 1 3 := by simp [FutureRect]
 
 /-- integer values; NaN is modelled by a sentinel the test recognises -/
-def exVals : Vals Int := { zero := 0, nan := -1, bad := fun v => v == -1 }
+def exVals : Vals Int := { zero := 0, nan := -1, bad := fun v => v == -1, isnan := fun v => v == -1 }
 example : FiniteLastWindow exVals [10, 11, 12, 13, 14, 15, 16] 2 := by decide
 
 /-- a toy regressor: weighted sum of the instance plus the sum of its training targets -/
@@ -465,7 +518,13 @@ example : (run exVals exReg .multioutput .tabular (.int 2) 0 [10, 11, 12, 13, 14
     .ok [(6, 54), (8, 58)] := by rfl
 -- after an update without refit the window is [20, 30] and the label is counted from the new cutoff 5
 example : (run exVals exReg .direct .tabular (.int 2) 0 [10, 11, 12, 13] none (some [1])
-    (.batch [20, 30] none false) none none).2 = .ok [(6, 105)] := by rfl
+    (.batch 4 [20, 30] none false) none none).2 = .ok [(6, 105)] := by rfl
+-- a late block re-stating labels 1..2 moves the cutoff to 2: the window is [21, 22] (not the stored tail [14, 15])
+example : (run exVals exReg .direct .tabular (.int 2) 0 [10, 11, 12, 13, 14, 15] none (some [1])
+    (.batch 1 [21, 22] none false) none none).2 = .ok [(3, 119)] := by rfl
+-- update_predict over new data restores the cutoff 3: the window is [12, 13], not the tail of the grown series
+example : (run exVals exReg .direct .tabular (.int 2) 0 [10, 11, 12, 13] none (some [1])
+    (.updPredict 4 [20, 30, 40] false) none none).2 = .ok [(4, 63)] := by rfl
 -- a non-finite last window forecasts NaN (outside `FiniteLastWindow`)
 example : (run exVals exReg .direct .tabular (.int 2) 0 [10, 11, 12, -1] none (some [1]) .no none none).2 =
     .ok [(4, -1)] := by rfl
